@@ -838,7 +838,7 @@ func isEmptyComments(v ssa.Value) bool {
 }
 
 func runC15(c *core.Ctx) {
-	c.Explanation = "Comment-slot coverage between parser (writer) and formatter (reader), decided on SSA: every site where the parser places comments — SwapLeadingTrailing/SwapLeadingInfix, stores to Meta.Leading/Trailing/Infix or to other ast.Comments fields of a node, and the implicit Leading of a node built from the token window — is resolved to an owner (node kind, or child reached through one field of the node under construction) and a slot. The formatter side is an inter-procedural summary (fixpoint over formatter and the ast renderers it calls statically) of which slots of which parameter-rooted access paths are read, with type-switch arms narrowing interface-typed roots. Obligation: every (owner, slot) the parser fills is read by some printer; a slot nobody reads loses every comment written there (including #FASTLY macros and falco-ignore annotations). Also formatComment emits every element of its argument. Parser side (cmt.token): every p.NextToken / successful p.ExpectPeek in a Parser method is an obligation - before the window advances again or the method returns without error, the comments in front of the new current token are moved by a Swap*(p.curToken, …), were moved while it was the peek token, are read explicitly, or the token becomes the Meta of a node / the start of a sub-parser; a return hands the obligation to the static callers. cmt.overwrite: a slot is not assigned twice on one path without a read between; cmt.dropnode: a parsed node that carries comments is stored into the tree; cmt.destructure: a printer that flattens an expression node reads its slots."
+	c.Explanation = "Comment-slot coverage between parser (writer) and formatter (reader), decided on SSA: every site where the parser places comments — SwapLeadingTrailing/SwapLeadingInfix, stores to Meta.Leading/Trailing/Infix or to other ast.Comments fields of a node, and the implicit Leading of a node built from the token window — is resolved to an owner (node kind, or child reached through one field of the node under construction) and a slot. The formatter side is an inter-procedural summary (fixpoint over formatter and the ast renderers it calls statically) of which slots of which parameter-rooted access paths are read, with type-switch arms narrowing interface-typed roots. Obligation: every (owner, slot) the parser fills is read by some printer; a slot nobody reads loses every comment written there (including #FASTLY macros and falco-ignore annotations). Also formatComment emits every element of its argument. Parser side (cmt.token): every p.NextToken / successful p.ExpectPeek in a Parser method is an obligation - before the window advances again or the method returns without error, the comments in front of the new current token are moved by a Swap*(p.curToken, …), were moved while it was the peek token, are read explicitly, or the token becomes the Meta of a node / the start of a sub-parser; a return hands the obligation to the static callers. cmt.overwrite: a slot is not assigned twice on one path without a read between; cmt.dropnode: a parsed node that carries comments is stored into the tree; cmt.destructure: a printer that flattens an expression node reads its slots on every path through the flattening call (must-summaries of the callees). cmt.once: no printer reads a slot itself after handing the node to a printer that reads the same slot on every path (printed twice)."
 	c.NotCovered = []string{"relative order of comments as a value property", "that the printed position re-parses into the same slot", "comments of tokens the parser consumes without transferring them (parser-side typestate, not attempted)", "owners resolved only by static type (~U) are matched weakly: any reader of that type and slot"}
 	prog := c.Prog
 	u := newAstUniverse(prog)
@@ -1108,6 +1108,15 @@ func runC15(c *core.Ctx) {
 			}
 		}
 	}
+	// ---- cmt.once: no slot is printed by a printer and again by the printer that called it
+	twice := a.printedTwice()
+	for _, l := range twice {
+		parts := strings.Split(l, "|")
+		c.Report("cmt.once", l, token.NoPos, fmt.Sprintf("%s reads the comments %s itself after handing the node to %s, which prints them on every one of its paths: the comments of that slot appear twice in the formatted output", parts[0], parts[1], strings.TrimPrefix(parts[2], "also printed by ")))
+	}
+	if len(twice) == 0 {
+		c.Discharge("cmt.once", "formatter", token.NoPos, "no printer reads a comment slot itself after handing the node to a printer that reads the same slot on all its paths")
+	}
 	// ---- cmt.overwrite: the parser does not overwrite a comment slot it has just filled
 	checkSlotOverwrite(c)
 	// ---- cmt.destructure: a printer that takes an expression node apart reads the node's own comments too
@@ -1120,6 +1129,9 @@ func runC15(c *core.Ctx) {
 		}
 		nDestr++
 		key := strings.SplitN(l, " but ", 2)[0]
+		if parts := strings.SplitN(l, " but ", 2); len(parts) == 2 {
+			key += "|" + strings.SplitN(parts[1], " ", 2)[0]
+		}
 		c.Report("cmt.destructure", key, token.NoPos, l+": when the node is flattened like this, a comment attached to it (the Pratt loop hangs the comments in front of an operator on the expression to its left) is dropped")
 	}
 	if nDestr == 0 {
@@ -1130,8 +1142,8 @@ func runC15(c *core.Ctx) {
 	// ---- cmt.dropnode: a parsed node that carries comments is not thrown away for one of its children
 	checkDroppedNodes(c)
 	// ---- cmt.macro: #FASTLY macro comments are exempt from the comment-style rewrite
-	if fc := prog.SSAFunc("formatter", "Formatter.formatComment"); fc != nil {
-		nConv := 0
+	nConv := 0
+	for _, fc := range prog.ModuleFuncs("formatter") {
 		for _, b := range fc.Blocks {
 			for _, in := range b.Instrs {
 				call, ok := in.(*ssa.Call)
@@ -1140,6 +1152,9 @@ func runC15(c *core.Ctx) {
 				}
 				cal := call.Common().StaticCallee()
 				if cal == nil || cal.Name() != "formatCommentCharacter" {
+					continue
+				}
+				if fc.Name() == "formatCommentCharacter" {
 					continue
 				}
 				nConv++
@@ -1163,7 +1178,7 @@ func runC15(c *core.Ctx) {
 						guarded = true
 					}
 				}
-				key := fmt.Sprintf("formatComment|style-rewrite#%d", nConv)
+				key := fmt.Sprintf("%s|style-rewrite#%d", fc.Name(), nConv)
 				if guarded {
 					c.Discharge("cmt.macro", key, in.Pos(), "only comments that are not #FASTLY macros are rewritten")
 				} else {
@@ -1172,6 +1187,7 @@ func runC15(c *core.Ctx) {
 			}
 		}
 	}
+	c.Floor("cmt.macro", 1)
 	// helpers that receive the comments themselves (ast.Comments parameter)
 	fcFn := prog.SSAFunc("formatter", "Formatter.formatComment")
 	for _, fn := range a.funcs {
@@ -1215,7 +1231,29 @@ func runC15(c *core.Ctx) {
 	}
 
 	// formatComment emits every element
-	if fc := prog.SSAFunc("formatter", "Formatter.formatComment"); fc == nil {
+	fc := prog.SSAFunc("formatter", "Formatter.formatComment")
+	// a wrapper that only forwards its comments to another function of the package: the loop lives in the callee
+	for hops := 0; fc != nil && hops < 3; hops++ {
+		if len(naturalLoops(fc)) > 0 {
+			break
+		}
+		var next *ssa.Function
+		for _, b := range fc.Blocks {
+			for _, in := range b.Instrs {
+				if cal := core.StaticCallee(in); cal != nil && cal.Pkg == fc.Pkg && len(cal.Params) > 1 {
+					args := in.(ssa.CallInstruction).Common().Args
+					if len(args) > 1 && args[1] == ssa.Value(fc.Params[1]) {
+						next = cal
+					}
+				}
+			}
+		}
+		if next == nil {
+			break
+		}
+		fc = next
+	}
+	if fc == nil {
 		c.MissingAnchor("cmt.emit", "formatter.(*Formatter).formatComment")
 	} else {
 		cd := core.NewCtrlDeps(fc)
@@ -1651,6 +1689,7 @@ func (a *cmtAnalysis) destructureMisses(ws []cmtWrite) []string {
 	}
 	// slots fn reads on (param i, path, narrowed kind)
 	readsOn := func(fn *ssa.Function, i int, path, kind string) map[string]bool {
+		_ = fn
 		out := map[string]bool{}
 		for e := range a.summaries[fn] {
 			if e.param != i {
@@ -1662,6 +1701,7 @@ func (a *cmtAnalysis) destructureMisses(ws []cmtWrite) []string {
 		}
 		return out
 	}
+	_ = readsOn
 	type key struct {
 		fn *ssa.Function
 		i  int
@@ -1677,6 +1717,86 @@ func (a *cmtAnalysis) destructureMisses(ws []cmtWrite) []string {
 		kind string
 		f    *ssa.Function
 		pi   int
+		blk  *ssa.BasicBlock
+	}
+	// readsAround: the slots g reads on (param i, path, kind) on every path through blk: a direct read, or a call of a
+	// function that reads the slot on every one of its own paths (must-summaries), in a block that dominates or
+	// post-dominates blk. A printer may read the slot on one branch and take the node apart on another; a may-read does
+	// not count.
+	mustRB := a.mustReadBlocks()
+	stripNarrow := func(p string) string {
+		if strings.HasPrefix(p, "!") {
+			rest := p[1:]
+			if i := strings.Index(rest, "."); i >= 0 {
+				return rest[i:]
+			}
+			return ""
+		}
+		return p
+	}
+	readsAround := func(g *ssa.Function, i int, path, kind string, blk *ssa.BasicBlock) map[string]bool {
+		out := map[string]bool{}
+		merged := map[string][]map[*ssa.BasicBlock]bool{}
+		for e, blocks := range mustRB[g] {
+			if e.param != i || stripNarrow(e.path) != path {
+				continue
+			}
+			merged[e.slot] = append(merged[e.slot], blocks)
+		}
+		for slot, sets := range merged {
+			reading := map[*ssa.BasicBlock]bool{}
+			for _, bs := range sets {
+				for b := range bs {
+					reading[b] = true
+				}
+			}
+			if reading[blk] {
+				out[slot] = true
+				continue
+			}
+			// after: no path from blk to a return avoids the reading blocks
+			after := true
+			seen := map[*ssa.BasicBlock]bool{blk: true}
+			stack := []*ssa.BasicBlock{blk}
+			for len(stack) > 0 && after {
+				b := stack[len(stack)-1]
+				stack = stack[:len(stack)-1]
+				if _, isRet := b.Instrs[len(b.Instrs)-1].(*ssa.Return); isRet {
+					after = false
+				}
+				for _, sc := range b.Succs {
+					if !seen[sc] && !reading[sc] {
+						seen[sc] = true
+						stack = append(stack, sc)
+					}
+				}
+			}
+			// before: no path from the entry to blk avoids the reading blocks
+			before := !reading[g.Blocks[0]] == false
+			if !before {
+				seen = map[*ssa.BasicBlock]bool{g.Blocks[0]: true}
+				stack = []*ssa.BasicBlock{g.Blocks[0]}
+				reached := false
+				for len(stack) > 0 && !reached {
+					b := stack[len(stack)-1]
+					stack = stack[:len(stack)-1]
+					if b == blk {
+						reached = true
+					}
+					for _, sc := range b.Succs {
+						if !seen[sc] && !reading[sc] {
+							seen[sc] = true
+							stack = append(stack, sc)
+						}
+					}
+				}
+				before = !reached
+			}
+			if after || before {
+				out[slot] = true
+			}
+		}
+		return out
 	}
 	var sites []site
 	for _, g := range ffuncs {
@@ -1706,7 +1826,7 @@ func (a *cmtAnalysis) destructureMisses(ws []cmtWrite) []string {
 						if kind == "" {
 							kind = astNodeName(d.root.Type())
 						}
-						sites = append(sites, site{g, qi, d.path, kind, f, pi})
+						sites = append(sites, site{g, qi, d.path, kind, f, pi, b})
 						hasCaller[key{f, pi}] = true
 					}
 				}
@@ -1724,10 +1844,15 @@ func (a *cmtAnalysis) destructureMisses(ws []cmtWrite) []string {
 			}
 		}
 	}
+	if os.Getenv("FV_C15_SITES") != "" {
+		for _, st := range sites {
+			fmt.Fprintf(os.Stderr, "CALL %s(%d) path=%q kind=%s -> %s(%d) around=%v\n", st.g.Name(), st.qi, st.path, st.kind, st.f.Name(), st.pi, readsAround(st.g, st.qi, st.path, st.kind, st.blk))
+		}
+	}
 	for changed := true; changed; {
 		changed = false
 		for _, st := range sites {
-			have := readsOn(st.g, st.qi, st.path, st.kind)
+			have := readsAround(st.g, st.qi, st.path, st.kind, st.blk)
 			if st.path == "" {
 				for s := range cov[key{st.g, st.qi}] {
 					have[s] = true
@@ -1750,8 +1875,11 @@ func (a *cmtAnalysis) destructureMisses(ws []cmtWrite) []string {
 			continue // the node itself is passed on, not a child
 		}
 		// st.g hands a child (st.path) of its node (param qi, kind) to st.f
-		if strings.Count(st.path, ".") != 1 {
-			continue
+		if strings.Count(st.path, ".") != 1 || st.path == ".Meta" {
+			continue // deeper paths are judged at their own level; the Meta is the node's own comment carrier, not a child
+		}
+		if os.Getenv("FV_C15_SITES") != "" {
+			fmt.Fprintf(os.Stderr, "SITE %s kind=%s path=%s -> %s need(fillable=%v expr=%v) around=%v cov=%v\n", st.g.Name(), st.kind, st.path, st.f.Name(), fillable[st.kind], exprSlots, readsAround(st.g, st.qi, "", st.kind, st.blk), cov[key{st.g, st.qi}])
 		}
 		need := map[string]bool{}
 		for s := range fillable[st.kind] {
@@ -1762,9 +1890,15 @@ func (a *cmtAnalysis) destructureMisses(ws []cmtWrite) []string {
 				need[s] = true
 			}
 		}
-		have := readsOn(st.g, st.qi, "", st.kind)
+		have := readsAround(st.g, st.qi, "", st.kind, st.blk)
 		for s := range cov[key{st.g, st.qi}] {
 			have[s] = true
+		}
+		// a function that only answers a question about the node (single bool result) prints nothing
+		if st.g.Signature.Results().Len() == 1 {
+			if bt, ok := st.g.Signature.Results().At(0).Type().Underlying().(*types.Basic); ok && bt.Kind() == types.Bool && !storesThroughParams(st.g) {
+				continue
+			}
 		}
 		for s := range need {
 			if !have[s] {
@@ -2006,4 +2140,260 @@ func peekSwappedBefore(b *ssa.BasicBlock, idx int) bool {
 		from = len(blk.Instrs) - 1
 	}
 	return false
+}
+
+// storesThroughParams: fn writes memory reachable from one of its parameters (it builds a result there), as opposed to
+// a pure predicate.
+func storesThroughParams(fn *ssa.Function) bool {
+	for _, b := range fn.Blocks {
+		for _, in := range b.Instrs {
+			st, ok := in.(*ssa.Store)
+			if !ok {
+				continue
+			}
+			root, _ := chainOf(st.Addr)
+			for {
+				if ia, ok := root.(*ssa.IndexAddr); ok {
+					root, _ = chainOf(ia.X)
+					continue
+				}
+				break
+			}
+			if _, isParam := root.(*ssa.Parameter); isParam {
+				return true
+			}
+		}
+	}
+	return false
+}
+
+// mustReadBlocks: per function and summary entry, the blocks that read the entry for certain - directly, or by calling
+// a function that reads the mapped entry on every path from its entry to a return (least fixpoint over the call graph).
+// Narrowed entries ("!Kind…") count for the un-narrowed path of the same node as well.
+func (a *cmtAnalysis) mustReadBlocks() map[*ssa.Function]map[slotEntry]map[*ssa.BasicBlock]bool {
+	may := a.summaries
+	must := map[*ssa.Function]map[slotEntry]bool{}
+	for _, fn := range a.funcs {
+		must[fn] = map[slotEntry]bool{}
+	}
+	blocksOf := func(fn *ssa.Function) map[slotEntry]map[*ssa.BasicBlock]bool {
+		rb := map[slotEntry]map[*ssa.BasicBlock]bool{}
+		add := func(e slotEntry, b *ssa.BasicBlock) {
+			if rb[e] == nil {
+				rb[e] = map[*ssa.BasicBlock]bool{}
+			}
+			rb[e][b] = true
+		}
+		for _, b := range fn.Blocks {
+			for _, in := range b.Instrs {
+				for _, ds := range a.instrReads(fn, b, in) {
+					if e, ok := a.entryOf(fn, ds.d, ds.slot); ok {
+						add(e, b)
+						if strings.HasPrefix(e.path, "!") {
+							rest := e.path[1:]
+							base := ""
+							if i := strings.Index(rest, "."); i >= 0 {
+								base = rest[i:]
+							}
+							add(slotEntry{e.param, base, e.slot}, b)
+						}
+					}
+				}
+			}
+		}
+		return rb
+	}
+	coversAllPaths := func(fn *ssa.Function, blocks map[*ssa.BasicBlock]bool) bool {
+		if len(fn.Blocks) == 0 {
+			return false
+		}
+		seen := map[*ssa.BasicBlock]bool{}
+		var stack []*ssa.BasicBlock
+		if !blocks[fn.Blocks[0]] {
+			stack = append(stack, fn.Blocks[0])
+			seen[fn.Blocks[0]] = true
+		}
+		for len(stack) > 0 {
+			b := stack[len(stack)-1]
+			stack = stack[:len(stack)-1]
+			if _, isRet := b.Instrs[len(b.Instrs)-1].(*ssa.Return); isRet {
+				return false
+			}
+			for _, s := range b.Succs {
+				if !seen[s] && !blocks[s] {
+					seen[s] = true
+					stack = append(stack, s)
+				}
+			}
+		}
+		return true
+	}
+	a.summaries = must
+	for changed := true; changed; {
+		changed = false
+		for _, fn := range a.funcs {
+			for e, blocks := range blocksOf(fn) {
+				if !must[fn][e] && coversAllPaths(fn, blocks) {
+					must[fn][e] = true
+					changed = true
+				}
+			}
+		}
+	}
+	out := map[*ssa.Function]map[slotEntry]map[*ssa.BasicBlock]bool{}
+	for _, fn := range a.funcs {
+		out[fn] = blocksOf(fn)
+	}
+	a.summaries = may
+	return out
+}
+
+// printedTwice (cmt.once): "exactly once" - a printer g hands a node (or a child of it) to another printer f and also
+// reads, on a path that continues from that call, a comment slot of the same node which f reads on every one of its own
+// paths (must-summary): the comments of that slot are then printed twice. A callee that reads the slot only on some
+// of its paths is not reported (the conditions may be complementary).
+func (a *cmtAnalysis) printedTwice() []string {
+	may := a.summaries
+	mustRB := a.mustReadBlocks()
+	must := map[*ssa.Function]map[slotEntry]bool{}
+	for fn, rb := range mustRB {
+		must[fn] = map[slotEntry]bool{}
+		for e, blocks := range rb {
+			// every path from the entry to a return passes a reading block
+			seen := map[*ssa.BasicBlock]bool{}
+			var stack []*ssa.BasicBlock
+			ok := len(fn.Blocks) > 0
+			if ok && !blocks[fn.Blocks[0]] {
+				stack = append(stack, fn.Blocks[0])
+				seen[fn.Blocks[0]] = true
+			}
+			for len(stack) > 0 && ok {
+				b := stack[len(stack)-1]
+				stack = stack[:len(stack)-1]
+				if _, isRet := b.Instrs[len(b.Instrs)-1].(*ssa.Return); isRet {
+					ok = false
+				}
+				for _, s := range b.Succs {
+					if !seen[s] && !blocks[s] {
+						seen[s] = true
+						stack = append(stack, s)
+					}
+				}
+			}
+			if ok {
+				must[fn][e] = true
+			}
+		}
+	}
+	reach := func(from, to *ssa.BasicBlock) bool {
+		seen := map[*ssa.BasicBlock]bool{from: true}
+		stack := []*ssa.BasicBlock{from}
+		for len(stack) > 0 {
+			b := stack[len(stack)-1]
+			stack = stack[:len(stack)-1]
+			for _, s := range b.Succs {
+				if s == to {
+					return true
+				}
+				if !seen[s] {
+					seen[s] = true
+					stack = append(stack, s)
+				}
+			}
+		}
+		return false
+	}
+	var out []string
+	seenMsg := map[string]bool{}
+	for _, g := range a.funcs {
+		if g.Pkg == nil || g.Pkg.Pkg.Path() != core.ModPath+"/formatter" {
+			continue
+		}
+		// direct reads of g
+		type dread struct {
+			d    nodeDesc
+			slot string
+			b    *ssa.BasicBlock
+			idx  int
+		}
+		var reads []dread
+		a.summaries = map[*ssa.Function]map[slotEntry]bool{} // direct reads only
+		for _, b := range g.Blocks {
+			for i, in := range b.Instrs {
+				if _, isFA := in.(*ssa.FieldAddr); !isFA {
+					continue
+				}
+				for _, ds := range a.instrReads(g, b, in) {
+					if ds.d.root != nil {
+						reads = append(reads, dread{ds.d, ds.slot, b, i})
+					}
+				}
+			}
+		}
+		a.summaries = may
+		if len(reads) == 0 {
+			continue
+		}
+		for _, b := range g.Blocks {
+			for i, in := range b.Instrs {
+				call, ok := in.(ssa.CallInstruction)
+				if !ok {
+					continue
+				}
+				f := call.Common().StaticCallee()
+				if f == nil || must[f] == nil || f == g {
+					continue
+				}
+				for e := range must[f] {
+					if e.param >= len(call.Common().Args) || e.param >= len(f.Params) {
+						continue
+					}
+					arg := call.Common().Args[e.param]
+					var ds []nodeDesc
+					if core.NamedTypePkgName(f.Params[e.param].Type()) == astPkgPath+".Meta" {
+						continue // a Meta handed over is the reading itself, judged where the fields are read
+					}
+					ds = a.descsNode(arg, b, map[ssa.Value]bool{})
+					for _, d := range ds {
+						if d.root == nil {
+							continue
+						}
+						p := e.path
+						if strings.HasPrefix(p, "!") {
+							rest := p[1:]
+							if k := strings.Index(rest, "."); k >= 0 {
+								p = rest[k:]
+							} else {
+								p = ""
+							}
+						}
+						full := d.path + p
+						for _, r := range reads {
+							if r.d.root != d.root || r.d.path != full || r.slot != e.slot {
+								continue
+							}
+							after := (r.b == b && r.idx > i) || (r.b != b && reach(b, r.b))
+							if !after {
+								continue
+							}
+							msg := fmt.Sprintf("%s|%s%s.%s|also printed by %s", core.FnName(g), rootLabel(d.root), full, e.slot, f.Name())
+							if !seenMsg[msg] {
+								seenMsg[msg] = true
+								out = append(out, msg)
+							}
+						}
+					}
+				}
+			}
+		}
+	}
+	sort.Strings(out)
+	return out
+}
+
+func rootLabel(v ssa.Value) string {
+	if p, ok := v.(*ssa.Parameter); ok {
+		return p.Name()
+	}
+	return core.NamedTypeName(derefType(v.Type()))
 }
